@@ -115,7 +115,15 @@ func (c *reconnectClient) Connect(ctx context.Context, clientID string, opts ...
 								c.options.PingInterval,
 								c.options.Timeout,
 							); err != nil {
-								c.Client().SetErrorOnce(err)
+								select {
+								case <-ctxKeepAlive.Done():
+									// Keep alive was stopped; it is not a connection error.
+									return
+								case <-c.disconnected:
+									return
+								default:
+								}
+								baseCli.SetErrorOnce(err)
 								// The client should close the connection if PINGRESP is not returned.
 								// MQTT 3.1.1 spec. 3.1.2.10
 								baseCli.Close()
